@@ -253,6 +253,44 @@ class Ctx:
 
 
 ARGWATCH = os.environ.get("VMON_ARGWATCH", "1") != "0"  # digest plain-data arguments before / after every library call
+def fresh_result(ctx, monitor, fn, args, kwargs=None, sig=None):
+    """History monitor for constructors: the object a call returns belongs to the caller.  Call, keep a copy, overwrite the returned array(s) in
+    place, call again with the same arguments: the second result must equal the kept copy and must not share memory with the first."""
+    kwargs = kwargs or {}
+    first = ctx.call(fn, *args, **kwargs)
+    if first is FAILED:
+        return FAILED
+
+    def arrays(obj):
+        if isinstance(obj, np.ndarray) and obj.dtype != object:
+            return [obj]
+        if isinstance(obj, (list, tuple)):
+            return [a_ for o_ in obj for a_ in arrays(o_)]
+        return []
+
+    firsts = arrays(first)
+    if not firsts:
+        return first
+    kept = [a_.copy() for a_ in firsts]
+    for a_ in firsts:
+        if a_.flags.writeable:
+            a_ *= 0
+            a_ += 7
+    second = ctx.call(fn, *args, **kwargs)
+    for a_, k_ in zip(firsts, kept):  # give the caller's copy of the first result its values back
+        if a_.flags.writeable:
+            a_[...] = k_
+    if second is FAILED:
+        return first
+    seconds = arrays(second)
+    fname = getattr(fn, "__name__", "fn")
+    same = len(seconds) == len(kept) and all(s_.shape == k_.shape and np.array_equal(s_, k_) for s_, k_ in zip(seconds, kept))
+    shared = any(np.shares_memory(s_, f_) for s_ in seconds for f_ in firsts)
+    ctx.check(monitor, same and not shared, sig=(fname, "fresh-result") + tuple(sig or ()), nt=True,
+              mech=f"{fname}:returned-array-is-shared-with-later-calls", detail={"function": fname, "second_call_equals_first": bool(same), "shares_memory": bool(shared)})
+    return first
+
+
 FREEZE = os.environ.get("VMON_FREEZE", "")  # "1": every call, "0": never, default: the cases the runner selects (one in four)
 
 
